@@ -6,6 +6,7 @@ tied by the correspondence run against `tools/elisp_eval.py` interpreting the
 working-tree chokan.el).  Data: `Chokan.Gen.Romaji` (regenerated on every run).
 -/
 import Chokan.Lemmas.Romaji
+import Chokan.Lemmas.RomajiIdem
 
 namespace Chokan.Props.C19
 open Chokan.Romaji Chokan.Gen.Romaji
@@ -51,10 +52,17 @@ theorem C19_idempotent_rows : ∀ kv ∈ romanTable, clientConv kv.2 = some kv.2
   have h : valuesUnmapped romanTable consonants romanTable = true := by decide +kernel
   exact valuesUnmapped_sound _ _ _ h kv hkv
 
-/-- Full-strength idempotence (stated; proved so far for table rows and unmapped strings,
-and checked differentially on the implementation for all generated key sequences). -/
+/-- Full-strength idempotence. -/
 def C19_idempotent_statement : Prop :=
   ∀ s out, clientConv s = some out → clientConv out = some out
+
+/-- **Idempotence on its own output**, for every key sequence: the output consists of table values and
+っ (no spelling uses them) and of characters passed through one at a time; a run of passed-through
+characters is a dead end at each of its positions, so a second pass changes nothing. -/
+theorem C19_idempotent : C19_idempotent_statement := by
+  intro s out h
+  exact conv_idempotent romanTable consonants _ (by decide +kernel) (by decide +kernel) (by decide +kernel)
+    (by decide +kernel) s out h
 
 /-- Hiragana→katakana: every table kana maps to its (first) table katakana. -/
 theorem C19_kata_table : ∀ kv ∈ katakanaTable, kv.1.length = 1 →
